@@ -18,7 +18,10 @@
 //	H<hexkey>:<hexval>   header line (wire order)
 //	Fcl | Fch | Fnone    framing: Content-Length, chunked, neither
 //	B<hex>               entity bytes as sent (before chunking)
-//	G<len>:<seed>:<enc>  generated entity: <len> plain bytes from <seed>, coded id|gzip|deflate|gzbad|gztrunc|form
+//	G<len>:<seed>:<enc>  generated entity: <len> plain bytes from <seed>, coded id|gzip|deflate|form or, undecodable:
+//	                     gzbad (bad gzip header), gztrunc (tail cut), gzcrc (bad CRC), gzpad (zero padding after the
+//	                     member), gzjunk (garbage after the member), zlib (RFC 1950 wrapper, for Content-Encoding: deflate)
+//	C<n>                 run n variants of the case (body seeds +1..+n) concurrently; fwd=0 unless each equals its sequential run
 //	K<n>                 chunk size used on the wire (default: one chunk)
 //	T<hexkey>:<hexval>   trailer field sent; D<hexkey> trailer declared only; U: do not declare sent trailers
 //
@@ -30,6 +33,7 @@ import (
 	"bytes"
 	"compress/flate"
 	"compress/gzip"
+	"compress/zlib"
 	"crypto/sha256"
 	"encoding/hex"
 	"fmt"
@@ -76,6 +80,7 @@ type spec struct {
 	logger     string
 	skip       bool
 	bad        string
+	conc       int
 }
 
 func genBody(n int, seed uint64, enc string) []byte {
@@ -107,19 +112,33 @@ func genBody(n int, seed uint64, enc string) []byte {
 		}
 	}
 	switch enc {
-	case "gzip", "gzbad", "gztrunc":
+	case "gzip", "gzbad", "gztrunc", "gzcrc", "gzpad", "gzjunk":
 		var b bytes.Buffer
 		zw := gzip.NewWriter(&b)
 		zw.Write(plain)
 		zw.Close()
 		out := b.Bytes()
-		if enc == "gzbad" {
+		switch enc {
+		case "gzbad":
 			out[0] ^= 0x55 // not a gzip stream any more
-		}
-		if enc == "gztrunc" && len(out) > 12 {
-			out = out[:len(out)-9]
+		case "gztrunc":
+			if len(out) > 12 {
+				out = out[:len(out)-9]
+			}
+		case "gzcrc":
+			out[len(out)-8] ^= 0xff // CRC-32 of the member
+		case "gzpad":
+			out = append(out, make([]byte, 16)...)
+		case "gzjunk":
+			out = append(out, []byte("trailing garbage")...)
 		}
 		return out
+	case "zlib":
+		var b bytes.Buffer
+		zw := zlib.NewWriter(&b)
+		zw.Write(plain)
+		zw.Close()
+		return b.Bytes()
 	case "deflate":
 		var b bytes.Buffer
 		zw, _ := flate.NewWriter(&b, flate.DefaultCompression)
@@ -236,6 +255,11 @@ func parseSpec(in []string) *spec {
 			s.entity = genBody(n, seed, p[2])
 		case t[0] == 'K':
 			s.chunk, _ = strconv.Atoi(t[1:])
+		case t[0] == 'C':
+			s.conc, _ = strconv.Atoi(t[1:])
+			if s.conc < 0 || s.conc > 64 {
+				s.bad = "C"
+			}
 		default:
 			s.bad = "tok:" + t
 		}
@@ -325,6 +349,16 @@ func (s *spec) raw() []byte {
 		b.WriteString("\r\n")
 	}
 	return b.Bytes()
+}
+
+// decodedEntity is the body a modifier sees (what the o.* twin yielded).
+func (s *spec) decodedEntity(_ *message) []byte {
+	m, err := s.parse(s.raw())
+	if err != nil || m.body() == nil {
+		return nil
+	}
+	b, _ := io.ReadAll(m.body())
+	return b
 }
 
 func reason(code int) string {
@@ -778,7 +812,73 @@ func readAllTok(rd io.Reader, err error) ([]byte, string) {
 
 // ---------------------------------------------------------------- one case
 
-func runCase(in []string) (out []string) {
+// runCase runs one case; with a C<n> token also n variants concurrently.
+func runCase(in []string) []string {
+	s := parseSpec(in)
+	if s.bad != "" {
+		return []string{"badcase:" + s.bad}
+	}
+	var base []string
+	for _, t := range in {
+		if t[0] != 'C' {
+			base = append(base, t)
+		}
+	}
+	out := runOne(base)
+	if s.conc == 0 {
+		return out
+	}
+	variants := make([][]string, s.conc)
+	seq := make([][]string, s.conc)
+	for i := range variants {
+		v := append([]string(nil), base...)
+		for j, t := range v {
+			if t[0] == 'G' {
+				p := strings.Split(t[1:], ":")
+				if len(p) == 3 {
+					seed, _ := strconv.Atoi(p[1])
+					v[j] = fmt.Sprintf("G%s:%d:%s", p[0], seed+1+i, p[2])
+				}
+			}
+		}
+		variants[i] = v
+		seq[i] = runOne(v)
+	}
+	same := true
+	for round := 0; round < 3 && same; round++ {
+		got := make([][]string, s.conc)
+		var wg sync.WaitGroup
+		start := make(chan struct{})
+		for i := range variants {
+			wg.Add(1)
+			go func(i int) {
+				defer wg.Done()
+				<-start
+				got[i] = runOne(variants[i])
+			}(i)
+		}
+		close(start)
+		wg.Wait()
+		for i := range got {
+			if strings.Join(got[i], " ") != strings.Join(seq[i], " ") {
+				same = false
+			}
+		}
+	}
+	if !same {
+		for i, t := range out {
+			if t == "fwd=1" {
+				out[i] = "fwd=0"
+			}
+		}
+		out = append(out, "conc=0")
+	} else {
+		out = append(out, "conc=1")
+	}
+	return out
+}
+
+func runOne(in []string) (out []string) {
 	defer func() {
 		if r := recover(); r != nil {
 			out = append(out, "PANIC")
@@ -821,12 +921,14 @@ func runCase(in []string) (out []string) {
 		return []string{"badcase:" + bad}
 	}
 	e1 := r1.run(tw[2])
+	disturb(s.logger, len(s.entity))
 	out = append(out, tw[2].fields("a")...)
 	r1.flush()
 	rec := r1.records()
 
 	r2, _ := newRunner(s.logger, s.isReq)
 	e2 := r2.run(tw[3])
+	disturb(s.logger, len(s.entity))
 	lw, _, lerr := tw[3].wire()
 	r2.flush()
 	if rec2 := r2.records(); rec2 > rec {
@@ -844,6 +946,15 @@ func runCase(in []string) (out []string) {
 		e1 = e1 + "/" + e2
 	}
 	out = append(out, "err="+e1)
+	{
+		var hd http.Header
+		if tw[1].req != nil {
+			hd = tw[1].req.Header
+		} else {
+			hd = tw[1].res.Header
+		}
+		out = append(out, "dc="+decodeClass(hd.Get("Content-Encoding"), s.decodedEntity(tw[1])))
+	}
 
 	// reference start line: what Write sends for the unlogged twin (responses);
 	// the request line as received (requests: Write always sends HTTP/1.1 and
@@ -902,6 +1013,64 @@ func runCase(in []string) (out []string) {
 		}
 	}
 	return out
+}
+
+// decodeClass says how Go's decoders behave on an entity announced with the
+// given Content-Encoding: ok, open (reader construction fails), read (fails
+// while reading).  Independent of martian.
+func decodeClass(ce string, entity []byte) string {
+	switch ce {
+	case "gzip":
+		zr, err := gzip.NewReader(bytes.NewReader(entity))
+		if err != nil {
+			return "open"
+		}
+		if _, err := io.Copy(io.Discard, zr); err != nil {
+			return "read"
+		}
+	case "deflate":
+		if _, err := io.Copy(io.Discard, flate.NewReader(bytes.NewReader(entity))); err != nil {
+			return "read"
+		}
+	}
+	return "ok"
+}
+
+// disturb snapshots / logs other messages with bodies of the same and of
+// other sizes: a logger that lets two exchanges share a buffer shows up when
+// the first message is serialised only afterwards.
+func disturb(lg string, n int) {
+	defer func() { recover() }()
+	for _, sz := range []int{n, n, n + 1, 2*n + 7, 64} {
+		fill := bytes.Repeat([]byte{0xEE}, sz)
+		for _, isReq := range []bool{true, false} {
+			r, bad := newRunner(lg, isReq)
+			if bad != "" {
+				return
+			}
+			var m *message
+			if isReq {
+				rq, _ := http.NewRequest("POST", "http://disturb.invalid/", bytes.NewReader(fill))
+				rq.Header.Set("Content-Type", "text/plain")
+				m = &message{req: rq}
+			} else {
+				rq, _ := http.NewRequest("GET", "http://disturb.invalid/", nil)
+				m = &message{res: &http.Response{Status: "200 OK", StatusCode: 200, Proto: "HTTP/1.1", ProtoMajor: 1, ProtoMinor: 1,
+					Header: http.Header{"Content-Type": {"text/plain"}}, Body: io.NopCloser(bytes.NewReader(fill)),
+					ContentLength: int64(sz), Request: rq}}
+			}
+			_, rm, err := martian.TestContext(m.request(), nil, nil)
+			if err != nil {
+				return
+			}
+			r.run(m)
+			if m.body() != nil {
+				io.Copy(io.Discard, m.body())
+			}
+			r.flush()
+			rm()
+		}
+	}
 }
 
 func firstLine(b []byte) []byte {
@@ -1252,18 +1421,39 @@ func main() {
 		}
 	}
 
-	// 5. undecodable bodies (malformed stream)
-	for k := 0; k < 24; k++ {
-		r := rng.Fork()
-		kind := []string{"REQ", "RES"}[k%2]
-		lg := []string{"har:on", "text:0:1", "text:0:0", "snap:0:-"}[(k/2)%4]
-		enc := []string{"gzbad", "gztrunc"}[(k/8)%2]
-		in := []string{kind, "lg=" + lg, "skip=0"}
-		if kind == "REQ" {
-			in = append(in, "MPOST")
+	// 5. undecodable bodies: every logger configuration x failure class
+	for _, cls := range [][2]string{{"gzip", "gzbad"}, {"gzip", "gztrunc"}, {"gzip", "gzcrc"}, {"gzip", "gzpad"}, {"gzip", "gzjunk"}, {"deflate", "zlib"}} {
+		for _, lg := range loggers {
+			for _, kind := range []string{"REQ", "RES"} {
+				r := rng.Fork()
+				in := []string{kind, "lg=" + lg, "skip=0"}
+				if kind == "REQ" {
+					in = append(in, "MPOST")
+				}
+				in = append(in, hkv("Content-Type", "text/plain"), hkv("Content-Encoding", cls[0]),
+					"F"+[]string{"cl", "ch"}[r.Intn(2)], fmt.Sprintf("G%d:%d:%s", r.Range(20, 400), r.Intn(1000), cls[1]))
+				emit("mal", in)
+			}
 		}
-		in = append(in, hkv("Content-Type", "text/plain"), hkv("Content-Encoding", "gzip"),
-			"F"+[]string{"cl", "ch"}[r.Intn(2)], fmt.Sprintf("G%d:%d:%s", r.Range(20, 400), r.Intn(1000), enc))
-		emit("mal", in)
+	}
+
+	// 7. concurrent exchanges through loggers of the same kind
+	nconc := 2
+	if cfg.Thorough() {
+		nconc = 6
+	}
+	for k := 0; k < nconc; k++ {
+		for _, lg := range []string{"snap:0:-", "har:on", "marbl", "text:0:0", "text:0:1"} {
+			for _, kind := range []string{"REQ", "RES"} {
+				r := rng.Fork()
+				in := []string{kind, "lg=" + lg, "skip=0"}
+				if kind == "REQ" {
+					in = append(in, "MPOST")
+				}
+				in = append(in, hkv("Content-Type", "text/plain"), "F"+[]string{"cl", "ch"}[r.Intn(2)],
+					fmt.Sprintf("G%d:%d:id", []int{64, 1000, 4096, 20000}[r.Intn(4)], r.Intn(1000)), "C8")
+				emit("conc", in)
+			}
+		}
 	}
 }
